@@ -13,11 +13,13 @@ def main():
     props = None
     for i, a in enumerate(args):
         if a == '--props': props = args[i + 1].split(',')
-    src = '/tmp/seeds/%s/%s' % (pid, k)
+    root = os.environ.get('SEED_ROOT', '/tmp/seeds')
+    tag = os.environ.get('SEED_TAG', '')
+    src = '%s/%s/%s' % (root, pid, k)
     if not os.path.isdir(src):
-        src = '/verif/seeded/%s-%s' % (pid, k)
+        src = '/verif/seeded/%s-%s%s' % (pid, tag, k)
     meta = json.load(open(os.path.join(src, 'meta.json')))
-    wt = '/tmp/wtv-%s-%s' % (pid, k)
+    wt = '/tmp/wtv-%s-%s%s' % (pid, tag, k)
     if not os.path.isdir(wt):
         rc, out = sh('git -C /repo worktree add -q --detach %s HEAD' % wt)
         assert rc == 0, out
@@ -48,11 +50,11 @@ def main():
         rc, out = sh('./check %s --tier quick' % p, cwd='/verif', env=env2)
         lines = [l for l in out.split('\n') if l.startswith(('VIOLATION', 'KNOWN-FINDING', 'INCONCLUSIVE', '  '))]
         res['checks'][p] = {'rc': rc, 'secs': round(time.time() - t, 1), 'lines': lines[:6]}
-        print('%s-%s check %s rc=%d %.0fs %s' % (pid, k, p, rc, time.time() - t, ' | '.join(lines[:2])[:300]))
+        print('%s-%s%s check %s rc=%d %.0fs %s' % (pid, tag, k, p, rc, time.time() - t, ' | '.join(lines[:2])[:300]))
     sh('git checkout -q -- .', cwd=wt)
     if '--keep' not in args:
         sh('git -C /repo worktree remove --force %s' % wt)
-    out_dir = '/verif/seeded/%s-%s' % (pid, k)
+    out_dir = '/verif/seeded/%s-%s%s' % (pid, tag, k)
     os.makedirs(out_dir, exist_ok=True)
     if src != out_dir:
         for f in ('patch.diff', 'demo.diff'):
